@@ -38,7 +38,7 @@ RULE = (
     "= distinct program JSON."
 )
 ASSUMPTIONS = ["values compared bitwise between the pickled and the original collection (same tasks)", "sync scheduler"]
-EXCLUDE = ("KF-layout-drift-over-shuffle", "KF-minmax-empty")
+EXCLUDE = exclusions.RAISES
 STAGES = ("fresh", "after-chunks", "after-optimize", "after-compute")
 HERE = os.path.dirname(os.path.dirname(os.path.dirname(os.path.abspath(__file__))))
 
